@@ -205,7 +205,7 @@ func Exec(p *Program, init *State, maxSteps int, keepTrace bool) *Result {
 		case LB, LH, LW:
 			a := rs1 + in.Imm
 			sz := int32(in.Op.AccessSize())
-			if a < 0 || int(a)+int(sz) > len(st.Mem) || a%sz != 0 {
+			if a < 0 || int(a)+int(sz) > len(st.Mem) || (a%sz != 0 && !p.Misaligned) {
 				res.End = BadAccess
 				ok = false
 				break
@@ -223,7 +223,7 @@ func Exec(p *Program, init *State, maxSteps int, keepTrace bool) *Result {
 		case SB, SH, SW:
 			a := rs1 + in.Imm
 			sz := int32(in.Op.AccessSize())
-			if a < 0 || int(a)+int(sz) > len(st.Mem) || a%sz != 0 {
+			if a < 0 || int(a)+int(sz) > len(st.Mem) || (a%sz != 0 && !p.Misaligned) {
 				res.End = BadAccess
 				ok = false
 				break
